@@ -22,7 +22,7 @@ class C19(Prop):
           "current_state) from their clauses; "
           "operations post/defer/recall/next_rtc/complete_circuit (a next_rtc on an empty queue logs the queue "
           "reflection alone); one history in eight is long (255-350 queued events) "
-          "so the 500-line ring wraps. Oracle built from the handlers' OWN invocation stream: each "
+          "so the 500-line ring wraps, one in seven starts from a queue filled to its capacity of 500 (a handler's post then displaces a queued event and is a post all the same). Oracle built from the handlers' OWN invocation stream: each "
           "step's spy_rtc() equals one 'SIGNAL:state' line per invocation the processor made (offers, "
           "EMPTY_SIGNAL guard fallbacks, SEARCH_FOR_SUPER probes, entry, exit, init) in order, a "
           "':HOOK' line exactly when a user signal returned HANDLED, the POST_FIFO / POST_LIFO / "
@@ -39,7 +39,9 @@ class C19(Prop):
   ]
 
   def strategy(self, tier):
-    return spytrace.history(tier)
+    from hypothesis import strategies as st
+    base = spytrace.history(tier)
+    return st.one_of(base, base, base, base, base, base, base.map(spytrace.at_capacity))
 
   def check(self, case, stats):
     run = spytrace.Run(case)
@@ -76,6 +78,8 @@ class C19(Prop):
               seen_hook = seen_hook or hook or fb
               seen_mark = seen_mark or mark
               nontrivial = seen_hook and seen_mark
+        if case.get("at_capacity"):
+          classes.append("queue_at_capacity")
         if len(run.exp_full) == spytrace.RING:
           classes.append("ring_wrapped")
       except spytrace.Desync:
